@@ -4,4 +4,3 @@ import GwModel.Trans.Transparent
 import GwModel.MergeObj
 import GwModel.Cache
 import GwModel.Inject
-import GwModel.SelectLoc
